@@ -810,7 +810,7 @@ class JsonAnySuite(Suite):
     def generate(self, rng, tier):
         cb = cfgbits(self.cfg)
         texts = []
-        maxlen = 3 if tier == "quick" else 4
+        maxlen = getattr(self, "maxlen", 3 if tier == "quick" else 4)
         for n in range(0, maxlen + 1):
             for seq in itertools.product(TOKENS, repeat=n):
                 texts.append(b"".join(seq))
@@ -832,7 +832,7 @@ class JsonAnySuite(Suite):
             cases.append(Case("jsonde %d 0 %d %s" % (cb, lim, hx(t)), text=t, lim=lim, rk=0, gid=i))
             if i % 7 == 0:
                 # source independence: the same bytes through other reader kinds
-                for rk in rng.sample([1, 2, 3, 4, 5, 6, 7, 8], 3):
+                for rk in rng.sample([1, 2, 3, 4, 5, 6, 7, 8] + ([20, 21, 22, 23] * 2 if self.cfg.get("arduino") else []), 3):
                     cases.append(Case("jsonde %d %d %d %s" % (cb, rk, lim, hx(t)), text=t, lim=lim, rk=rk, gid=i))
         return cases
 
@@ -843,7 +843,7 @@ class JsonAnySuite(Suite):
         return h
 
     def canon_m(self, case, m):
-        if case.meta["rk"] not in (0, 5, 8):
+        if case.meta["rk"] not in (0, 5, 8, 21):
             return " ".join(m.split(" ")[:2])
         return m
 
